@@ -2,8 +2,11 @@ package rules
 
 import (
 	"go/ast"
+	"go/token"
 	"go/types"
 	"strings"
+
+	"golang.org/x/tools/go/cfg"
 
 	"verif/internal/core"
 	"verif/internal/flow"
@@ -31,6 +34,15 @@ const hp = "pkg/protocols/httpprot"
 //	SetOutputResponse before the fetch / error swallowed                → R-C07-5
 //
 // Not caught (numeric, stated): `>`→`>=` on the declared-length test.
+//
+// Robustness pass: the limit selection (R-C07-2) is decided by a path-sensitive source tracker
+// (c07Src) that follows the value through locals, parameters and results of helpers interpreted in
+// place, in either order of the selection (specific first / general first), as an if, a switch or
+// a function of its own (`FetchPayload(sp.serverMaxBodySize())`, `path.bodySizeLimit(serverLimit)`);
+// fetch, 413/400 mapping and dispatch may live in helpers of serveHTTP / buildResponse
+// (muxResultHolders follows the error through `return resp.FetchPayload(..)`); the declared length,
+// the payload length and the probe count may sit in locals. Mutants re-tried on refactored forms:
+// selection helper that never falls back → R-C07-2; helper that drops the fetch error → R-C07-5.
 func c07(c *core.Ctx) string {
 	c.Rule("R-C07-1", "fetch before dispatch: every path of serveHTTP to a handler passes req.FetchPayload with a nil error; ErrRequestEntityTooLarge ⇒ 413 response and return; any other error ⇒ 400 and return")
 	c.Rule("R-C07-2", "effective limit: the limit handed to FetchPayload is the specific (path / pool) value, replaced by the general (server / proxy) value exactly when the specific one is 0")
@@ -112,82 +124,402 @@ func c07Serve(c *core.Ctx) {
 	}
 }
 
-// c07LimitIn checks the "specific, else general when 0" selection of the limit passed to fetch.
-func c07LimitIn(c *core.Ctx, f *flow.Func, cons string, fetch *ast.CallExpr, specific, general *types.Var, what string) {
-	if fetch == nil || len(fetch.Args) != 1 {
-		c.Undecide("R-C07-2", cons+"|effective "+what, pos(c, f.Body), "FetchPayload call not found")
-		return
-	}
-	lim, ok := ast.Unparen(fetch.Args[0]).(*ast.Ident)
-	if !ok {
-		c.Violate("R-C07-2", cons+"|effective "+what, pos(c, fetch), "the limit handed to FetchPayload is not a selected variable (specific value, else general value)")
-		return
-	}
-	limObj := f.Info.Uses[lim]
-	zeroKey := "eq:" + f.Render(lim) + "==0"
-	fieldOf := func(e ast.Expr) *types.Var {
-		if sel, ok := ast.Unparen(e).(*ast.SelectorExpr); ok {
-			if s := f.Info.Selections[sel]; s != nil {
-				if v, ok := s.Obj().(*types.Var); ok {
-					return v
-				}
-			}
+// c07Src tracks, path-sensitively and through calls interpreted in place, whether the value of an
+// integer variable comes from the specific setting (fact value True), the general setting (False)
+// or something else (unknown), and what the code has learned about "the specific setting is 0"
+// (event ev:Szero). Events: ev:src:<var>, ev:ret:<func> (source of the value a function returned),
+// ev:pend:<var>\x00<func> (the variable is being assigned the result of that call).
+type c07Src struct {
+	f                 *flow.Func
+	specific, general *types.Var
+	inl               func(*ast.CallExpr, *types.Func) *flow.Func
+	retOwner          map[*ast.ReturnStmt]*types.Func
+	vf                *muxFlow
+	sRenders          map[string]bool
+	seed              map[string]flow.Val // initial sources of the root function's parameters
+}
+
+func newC07Src(f *flow.Func, fns []*flow.Func, specific, general *types.Var, inl func(*ast.CallExpr, *types.Func) *flow.Func) *c07Src {
+	t := &c07Src{f: f, specific: specific, general: general, inl: inl, retOwner: map[*ast.ReturnStmt]*types.Func{}, vf: newMuxFlow(fns), sRenders: map[string]bool{}, seed: map[string]flow.Val{}}
+	for fo, rets := range t.vf.rets {
+		for _, r := range rets {
+			t.retOwner[r] = fo
 		}
+	}
+	for _, g := range fns {
+		ast.Inspect(g.Body, func(n ast.Node) bool {
+			if sel, ok := n.(*ast.SelectorExpr); ok && t.class(sel) == flow.True {
+				t.sRenders[f.Render(sel)] = true
+			}
+			return true
+		})
+	}
+	return t
+}
+
+// class: True for a selection of the specific field, False for the general field.
+func (t *c07Src) class(e ast.Expr) flow.Val {
+	sel, ok := ast.Unparen(e).(*ast.SelectorExpr)
+	if !ok {
+		return flow.Unknown
+	}
+	if s := t.f.Info.Selections[sel]; s != nil {
+		switch s.Obj() {
+		case types.Object(t.specific):
+			return flow.True
+		case types.Object(t.general):
+			return flow.False
+		}
+	}
+	return flow.Unknown
+}
+
+func (t *c07Src) inlined(call *ast.CallExpr) *types.Func {
+	if call == nil || call.Ellipsis.IsValid() {
 		return nil
 	}
-	var badAssign *flow.State
-	whyAssign := ""
-	res := analyze(c, f, flow.Config{NoHavoc: true, OnNode: func(st *flow.State, n ast.Node) {
-		as, ok := n.(*ast.AssignStmt)
-		if !ok {
+	fo, ok := t.f.Callee(call).(*types.Func)
+	if !ok || t.inl == nil || t.inl(call, fo) == nil {
+		return nil
+	}
+	return fo.Origin()
+}
+
+// get returns the source of the value of e in st.
+func (t *c07Src) get(st *flow.State, e ast.Expr) flow.Val {
+	e = ast.Unparen(e)
+	if v := t.class(e); v != flow.Unknown {
+		return v
+	}
+	if call, ok := e.(*ast.CallExpr); ok {
+		if tv, ok := t.f.Info.Types[call.Fun]; ok && tv.IsType() && len(call.Args) == 1 {
+			return t.get(st, call.Args[0]) // conversion
+		}
+		return flow.Unknown
+	}
+	id, ok := e.(*ast.Ident)
+	if !ok {
+		return flow.Unknown
+	}
+	r := t.f.Render(id)
+	for _, fact := range st.Facts() {
+		if strings.HasPrefix(fact, "ev:pend:"+r+"\x00") {
+			return st.Get("ev:ret:" + fact[len("ev:pend:"+r+"\x00"):len(fact)-2])
+		}
+	}
+	return st.Get("ev:src:" + r)
+}
+
+// settle resolves the variables (and return slots) waiting for a call that has returned.
+func (t *c07Src) settle(st *flow.State) {
+	for changed, n := true, 0; changed && n < 4; n++ {
+		changed = false
+		for _, fact := range st.Facts() {
+			if !strings.HasPrefix(fact, "ev:pend:") {
+				continue
+			}
+			key := fact[:len(fact)-2]
+			parts := strings.SplitN(key[len("ev:pend:"):], "\x00", 2)
+			if len(parts) != 2 {
+				continue
+			}
+			retKey := "ev:ret:" + parts[1]
+			if st.Get("ev:returned:"+parts[1]) != flow.True {
+				continue
+			}
+			v := st.Get(retKey)
+			st.Set(key, flow.Unknown)
+			if strings.HasPrefix(parts[0], "ret:") {
+				st.Set("ev:"+parts[0], v)
+				st.Set("ev:returned:"+parts[0][len("ret:"):], flow.True)
+			} else {
+				st.Set("ev:src:"+parts[0], v)
+			}
+			changed = true
+		}
+	}
+}
+
+func (t *c07Src) setVar(st *flow.State, l ast.Expr, v flow.Val) {
+	id := muxIdentOf(l)
+	if id == nil || id.Name == "_" {
+		return
+	}
+	r := t.f.Render(id)
+	for _, fact := range st.Facts() {
+		if strings.HasPrefix(fact, "ev:pend:"+r+"\x00") {
+			st.Set(fact[:len(fact)-2], flow.Unknown)
+		}
+	}
+	st.Set("ev:src:"+r, v)
+}
+
+func (t *c07Src) await(st *flow.State, slot string, fo *types.Func) {
+	st.Set("ev:ret:"+fo.FullName(), flow.Unknown)
+	st.Set("ev:returned:"+fo.FullName(), flow.Unknown)
+	st.Set("ev:pend:"+slot+"\x00"+fo.FullName(), flow.True)
+}
+
+func (t *c07Src) onNode(st *flow.State, n ast.Node) {
+	t.settle(st)
+	switch x := n.(type) {
+	case *ast.AssignStmt:
+		switch {
+		case x.Tok != token.ASSIGN && x.Tok != token.DEFINE:
+			for _, l := range x.Lhs {
+				t.setVar(st, l, flow.Unknown)
+			}
+		case len(x.Rhs) == 1 && t.inlined(c07CallOf(x.Rhs[0])) != nil:
+			for _, l := range x.Lhs {
+				t.setVar(st, l, flow.Unknown)
+			}
+			if id := muxIdentOf(x.Lhs[0]); id != nil && id.Name != "_" {
+				t.await(st, t.f.Render(id), t.inlined(c07CallOf(x.Rhs[0])))
+			}
+		case len(x.Lhs) == len(x.Rhs):
+			vals := make([]flow.Val, len(x.Rhs))
+			for i, r := range x.Rhs {
+				vals[i] = t.get(st, r)
+			}
+			for i, l := range x.Lhs {
+				t.setVar(st, l, vals[i])
+			}
+		default:
+			for _, l := range x.Lhs {
+				t.setVar(st, l, flow.Unknown)
+			}
+		}
+	case *ast.ValueSpec:
+		for i, nm := range x.Names {
+			v := flow.Unknown
+			if len(x.Values) == len(x.Names) {
+				v = t.get(st, x.Values[i])
+			}
+			t.setVar(st, nm, v)
+		}
+	case *ast.IncDecStmt:
+		t.setVar(st, x.X, flow.Unknown)
+	case *ast.ReturnStmt:
+		fo := t.retOwner[x]
+		if fo == nil {
 			return
 		}
-		for i, l := range as.Lhs {
-			id, ok := l.(*ast.Ident)
-			if !ok || i >= len(as.Rhs) {
-				continue
-			}
-			obj := f.Info.Defs[id]
-			if obj == nil {
-				obj = f.Info.Uses[id]
-			}
-			if obj != limObj {
-				continue
-			}
-			switch fieldOf(as.Rhs[i]) {
-			case specific:
-				st.Set("ev:lim", flow.True) // specific
-			case general:
-				if !st.Is("ev:lim", flow.True) || !st.Is(zeroKey, flow.True) {
-					badAssign, whyAssign = st, "the general limit replaces the specific one although the specific one is not known to be 0"
+		name := fo.FullName()
+		switch {
+		case len(x.Results) >= 1:
+			if len(x.Results) == 1 {
+				if callee := t.inlined(c07CallOf(x.Results[0])); callee != nil {
+					st.Set("ev:ret:"+name, flow.Unknown)
+					st.Set("ev:returned:"+name, flow.Unknown)
+					t.await(st, "ret:"+name, callee)
+					return
 				}
-				st.Set("ev:lim", flow.False) // general
-			default:
-				st.Set("ev:lim", flow.Unknown)
+			}
+			st.Set("ev:ret:"+name, t.get(st, x.Results[0]))
+			st.Set("ev:returned:"+name, flow.True)
+		default:
+			v := flow.Unknown
+			if ids := t.vf.results[fo]; len(ids) >= 1 {
+				v = t.get(st, ids[0])
+			}
+			st.Set("ev:ret:"+name, v)
+			st.Set("ev:returned:"+name, flow.True)
+		}
+	}
+}
+
+func c07CallOf(e ast.Expr) *ast.CallExpr {
+	c, _ := ast.Unparen(e).(*ast.CallExpr)
+	return c
+}
+
+// onCall binds the parameters of a callee interpreted in place to the sources of the operands.
+func (t *c07Src) onCall(st *flow.State, call *ast.CallExpr, callee types.Object, deferred bool) {
+	if deferred {
+		return
+	}
+	fo := t.inlined(call)
+	if fo == nil {
+		return
+	}
+	g := t.vf.fnOf[fo]
+	if g == nil {
+		return
+	}
+	fd := g.Node.(*ast.FuncDecl)
+	if fd.Recv != nil && len(fd.Recv.List) == 1 && len(fd.Recv.List[0].Names) == 1 {
+		if sel, ok := ast.Unparen(call.Fun).(*ast.SelectorExpr); ok {
+			t.setVar(st, fd.Recv.List[0].Names[0], t.get(st, sel.X))
+		}
+	}
+	i := 0
+	for _, fld := range fd.Type.Params.List {
+		if len(fld.Names) == 0 {
+			i++
+		}
+		for _, nm := range fld.Names {
+			if i < len(call.Args) {
+				t.setVar(st, nm, t.get(st, call.Args[i]))
+			}
+			i++
+		}
+	}
+}
+
+// afterAssume records what a zero test of a value of the specific setting has found.
+func (t *c07Src) afterAssume(st *flow.State) {
+	t.settle(st)
+	for _, fact := range st.Facts() {
+		if !strings.HasPrefix(fact, "eq:") || !(strings.HasSuffix(fact, "==0=T") || strings.HasSuffix(fact, "==0=F")) {
+			continue
+		}
+		x := fact[len("eq:") : len(fact)-len("==0=T")]
+		if t.sRenders[x] || st.Is("ev:src:"+x, flow.True) {
+			if strings.HasSuffix(fact, "=T") {
+				st.Set("ev:Szero", flow.True)
+			} else {
+				st.Set("ev:Szero", flow.False)
 			}
 		}
-	}})
-	if res == nil {
+	}
+}
+
+func (t *c07Src) config(extra flow.Config) flow.Config {
+	onNode, onCall, after, onBlock := extra.OnNode, extra.OnCall, extra.AfterAssume, extra.OnBlock
+	extra.NoHavoc = true
+	extra.OnNode = func(st *flow.State, n ast.Node) {
+		t.onNode(st, n)
+		if onNode != nil {
+			onNode(st, n)
+		}
+	}
+	extra.OnCall = func(st *flow.State, call *ast.CallExpr, callee types.Object, deferred bool) {
+		t.onCall(st, call, callee, deferred)
+		if onCall != nil {
+			onCall(st, call, callee, deferred)
+		}
+	}
+	extra.AfterAssume = func(st *flow.State, cond ast.Expr, outcome bool) {
+		t.afterAssume(st)
+		if after != nil {
+			after(st, cond, outcome)
+		}
+	}
+	extra.OnBlock = func(st *flow.State, b *cfg.Block) {
+		if b.Index == 0 && b.Stmt == ast.Node(t.f.Body) {
+			for k, v := range t.seed {
+				st.Set(k, v)
+			}
+		}
+		if onBlock != nil {
+			onBlock(st, b)
+		}
+	}
+	return extra
+}
+
+// c07LimitIn checks the "specific, else general when 0" selection of the limit passed to fetch.
+// entry is the function to analyse (the fetch call is in it or in a same-package helper it calls,
+// interpreted in place); opaque lists callees that stay uninterpreted.
+func c07LimitIn(c *core.Ctx, entry *flow.Func, cons string, fetch *ast.CallExpr, specific, general *types.Var, what string, opaque ...types.Object) {
+	if fetch == nil || len(fetch.Args) != 1 {
+		c.Undecide("R-C07-2", cons+"|effective "+what, pos(c, entry.Body), "FetchPayload call not found")
+		return
+	}
+	if specific == nil || general == nil {
+		c.Undecide("R-C07-2", cons+"|effective "+what, pos(c, fetch), "cannot resolve the specific / general limit settings")
+		return
+	}
+	type use struct {
+		st  *flow.State
+		src flow.Val
+	}
+	var uses []use
+	omap := map[types.Object]bool{}
+	for _, o := range opaque {
+		omap[o] = true
+	}
+	arg := ast.Unparen(fetch.Args[0])
+	switch x := arg.(type) {
+	case *ast.Ident:
+		fns := muxReach(entry, 4, omap)
+		t := newC07Src(entry, fns, specific, general, inlineSamePkg(entry, opaque...))
+		res := muxAnalyzeInl(c, entry, t.config(flow.Config{}), opaque...)
+		if res == nil {
+			return
+		}
+		for _, st := range res.At[fetch] {
+			uses = append(uses, use{st, t.get(st, x)})
+		}
+	case *ast.CallExpr:
+		// the selection is a function of its own: FetchPayload(h(..))
+		fo, _ := entry.Callee(x).(*types.Func)
+		var h *flow.Func
+		if fo != nil && fo.Pkg() == entry.Pkg.Types {
+			if fd := declOf(entry.Pkg, fo); fd != nil {
+				h = flow.NewFunc(entry.Pkg, fd)
+			}
+		}
+		if h == nil {
+			c.Undecide("R-C07-2", cons+"|effective "+what, pos(c, fetch), "the limit handed to FetchPayload is computed by a call that cannot be followed")
+			return
+		}
+		fns := muxReach(h, 3, omap)
+		t := newC07Src(h, fns, specific, general, inlineSamePkg(h, opaque...))
+		// the operands of the call seed the parameters
+		hd := h.Node.(*ast.FuncDecl)
+		i := 0
+		for _, fld := range hd.Type.Params.List {
+			if len(fld.Names) == 0 {
+				i++
+			}
+			for _, nm := range fld.Names {
+				if i < len(x.Args) {
+					if v := t.class(x.Args[i]); v != flow.Unknown {
+						t.seed["ev:src:"+h.Render(nm)] = v
+					}
+				}
+				i++
+			}
+		}
+		res := muxAnalyzeInl(c, h, t.config(flow.Config{}), opaque...)
+		if res == nil {
+			return
+		}
+		for _, ex := range res.Exits {
+			if ex.Kind == flow.ExitReturn {
+				uses = append(uses, use{ex.State, ex.State.Get("ev:ret:" + fo.Origin().FullName())})
+			}
+		}
+	case *ast.SelectorExpr:
+		c.Violate("R-C07-2", cons+"|effective "+what, pos(c, fetch), "the limit handed to FetchPayload is not a selected value (specific value, else general value)")
+		return
+	default:
+		if tv, ok := entry.Info.Types[arg]; ok && tv.Value != nil {
+			c.Violate("R-C07-2", cons+"|effective "+what, pos(c, fetch), "the limit handed to FetchPayload is not a selected value (specific value, else general value)")
+			return
+		}
+		c.Undecide("R-C07-2", cons+"|effective "+what, pos(c, fetch), "the expression handed to FetchPayload cannot be followed")
 		return
 	}
 	var bad *flow.State
 	why := ""
 	sawS, sawG := false, false
-	for _, st := range res.At[fetch] {
-		switch st.Get("ev:lim") {
+	for _, u := range uses {
+		switch u.src {
 		case flow.True:
 			sawS = true
-			if !st.Is(zeroKey, flow.False) {
-				bad, why = st, "the specific limit is used without having been tested for 0 (an unset specific limit must fall back to the general one)"
+			if !u.st.Is("ev:Szero", flow.False) {
+				bad, why = u.st, "the specific limit is used without having been tested for 0 (an unset specific limit must fall back to the general one)"
 			}
 		case flow.False:
 			sawG = true
+			if !u.st.Is("ev:Szero", flow.True) {
+				bad, why = u.st, "the general limit replaces the specific one although the specific one is not known to be 0"
+			}
 		default:
-			bad, why = st, "the limit does not come from the specific or the general setting"
+			bad, why = u.st, "the limit does not come from the specific or the general setting"
 		}
-	}
-	if badAssign != nil {
-		bad, why = badAssign, whyAssign
 	}
 	if bad == nil && !(sawS && sawG) {
 		c.Violate("R-C07-2", cons+"|effective "+what, pos(c, fetch), sprintf("the limit selection does not offer both the specific and the general value (specific seen %v, general seen %v)", sawS, sawG))
@@ -196,19 +528,51 @@ func c07LimitIn(c *core.Ctx, f *flow.Func, cons string, fetch *ast.CallExpr, spe
 	c.Check(bad == nil, "R-C07-2", cons+"|effective "+what, pos(c, fetch), "specific value when non-zero, general value exactly when the specific one is 0", why, witness(bad)...)
 }
 
-func c07Limit(c *core.Ctx) {
-	if s := analyzeServe(c, "R-C07-2"); s != nil {
-		c07LimitIn(c, s.f, s.cons, s.fetch, structField(c, hs, "MuxPath", "clientMaxBodySize"), structField(c, hs, "Spec", "ClientMaxBodySize"), "clientMaxBodySize")
-	}
-	if f := fn(c, "pkg/filters/proxy", "ServerPool", "buildResponse"); f != nil {
-		var fetch *ast.CallExpr
-		for _, call := range calls(f.Body, false) {
-			if calleeIs(f, call, "(*"+hp+".Response).FetchPayload") {
-				fetch = call
+// c07RespFetch locates resp.FetchPayload in ServerPool.buildResponse or a same-package helper.
+func c07RespFetch(f *flow.Func) (*ast.CallExpr, *flow.Func) {
+	for _, g := range reach(f, 3) {
+		for _, call := range calls(g.Body, true) {
+			if calleeIs(g, call, "(*"+hp+".Response).FetchPayload") {
+				return call, g
 			}
 		}
-		c07LimitIn(c, f, fname("pkg/filters/proxy", "ServerPool", "buildResponse"), fetch,
-			structField(c, "pkg/filters/proxy", "ServerPoolSpec", "ServerMaxBodySize"), structField(c, "pkg/filters/proxy", "Spec", "ServerMaxBodySize"), "serverMaxBodySize")
+	}
+	return nil, nil
+}
+
+func c07Limit(c *core.Ctx) {
+	if s := analyzeServe(c, "R-C07-2"); s != nil {
+		var general *types.Var
+		if s.ro.specT != nil {
+			general = muxOneField(s.ro.specT, "ClientMaxBodySize", func(v *types.Var) bool { return v.Name() == "ClientMaxBodySize" })
+		}
+		// the helpers the serve analysis keeps uninterpreted stay so, except integer-valued ones:
+		// a helper such as (*MuxPath).bodySizeLimit(serverLimit) is where the selection happens
+		var opaque []types.Object
+		for _, o := range s.opaque {
+			fo, ok := o.(*types.Func)
+			if !ok {
+				continue
+			}
+			sig := fo.Type().(*types.Signature)
+			if sig.Results().Len() == 1 && types.Identical(sig.Results().At(0).Type(), types.Typ[types.Int64]) {
+				continue
+			}
+			opaque = append(opaque, o)
+		}
+		c07LimitIn(c, s.f, s.cons, s.fetch, s.ro.limitF, general, "clientMaxBodySize", opaque...)
+	}
+	px := "pkg/filters/proxy"
+	if f := fn(c, px, "ServerPool", "buildResponse"); f != nil {
+		fetch, _ := c07RespFetch(f)
+		var specific, general *types.Var
+		if n := namedType(c, px, "ServerPoolSpec"); n != nil {
+			specific = muxOneField(n, "ServerMaxBodySize", func(v *types.Var) bool { return v.Name() == "ServerMaxBodySize" })
+		}
+		if n := namedType(c, px, "Spec"); n != nil {
+			general = muxOneField(n, "ServerMaxBodySize", func(v *types.Var) bool { return v.Name() == "ServerMaxBodySize" })
+		}
+		c07LimitIn(c, f, fname(px, "ServerPool", "buildResponse"), fetch, specific, general, "serverMaxBodySize")
 	}
 }
 
@@ -362,12 +726,36 @@ func c07Fetch(c *core.Ctx, recv string) {
 		c.Check(bad == nil, "R-C07-3", cons+"|stream iff negative limit", pos(c, f.Body), sprintf("%d stream site(s) only under max<0; buffering only under max>=0", len(streamSets)), why, witness(bad)...)
 	}
 
-	// (c) allocation bounded: ContentLength > max is false at make/ReadFull
+	// (c) allocation bounded: ContentLength > max is false at make/ReadFull. The declared length
+	// is the ContentLength field of the net/http message, possibly read into a local first.
+	vf := newMuxFlow([]*flow.Func{f})
+	isCL := func(e ast.Expr) bool {
+		sel, ok := vf.through(e).(*ast.SelectorExpr)
+		if !ok || sel.Sel.Name != "ContentLength" {
+			return false
+		}
+		sl := f.Info.Selections[sel]
+		return sl != nil && sl.Obj().Pkg() != nil && sl.Obj().Pkg().Path() == "net/http"
+	}
+	clRenders := map[string]bool{}
+	ast.Inspect(f.Body, func(n ast.Node) bool {
+		switch x := n.(type) {
+		case *ast.SelectorExpr:
+			if isCL(x) {
+				clRenders[f.Render(x)] = true
+			}
+		case *ast.Ident:
+			if _, isVar := vf.obj(x).(*types.Var); isVar && isCL(x) {
+				clRenders[f.Render(x)] = true
+			}
+		}
+		return true
+	})
 	var clKey string
 	for _, k := range []ast.Node{mk} {
 		for _, st := range res.At[k] {
 			for _, fact := range st.Facts() {
-				if strings.HasPrefix(fact, "lt:"+maxR+"<") && strings.HasSuffix(fact, ".ContentLength=F") {
+				if strings.HasPrefix(fact, "lt:"+maxR+"<") && strings.HasSuffix(fact, "=F") && clRenders[fact[len("lt:"+maxR+"<"):len(fact)-2]] {
 					clKey = fact[:len(fact)-2]
 				}
 			}
@@ -388,11 +776,19 @@ func c07Fetch(c *core.Ctx, recv string) {
 		sentinel = "ErrResponseEntityTooLarge"
 	}
 	retSentinel := func(ex *flow.Exit) bool {
-		if ex.Return == nil || len(ex.Return.Results) != 1 {
+		r := muxRetExpr(f, vf, ex)
+		if r == nil {
 			return false
 		}
-		id, ok := ast.Unparen(ex.Return.Results[0]).(*ast.Ident)
-		return ok && id.Name == sentinel && f.Info.Uses[id] != nil && f.Info.Uses[id].Parent() == f.Pkg.Types.Scope()
+		id, ok := vf.through(r).(*ast.Ident)
+		if ok && id.Name == sentinel && f.Info.Uses[id] != nil && f.Info.Uses[id].Parent() == f.Pkg.Types.Scope() {
+			return true
+		}
+		// a (named) result variable known to hold the sentinel
+		if rid := muxIdentOf(r); rid != nil {
+			return ex.State.Is("eq:"+f.Render(rid)+"==@"+f.Pkg.Types.Path()+"."+sentinel, flow.True)
+		}
+		return false
 	}
 	bad, why = nil, ""
 	tooLargeDeclared := 0
@@ -411,11 +807,11 @@ func c07Fetch(c *core.Ctx, recv string) {
 	mapped := false
 	nfull := 0
 	for _, ex := range res.Exits {
-		if ex.Kind != flow.ExitReturn || !ex.State.Is("ev:readfull", flow.True) || ex.Return == nil || len(ex.Return.Results) != 1 {
+		if ex.Kind != flow.ExitReturn || !ex.State.Is("ev:readfull", flow.True) || muxRetExpr(f, vf, ex) == nil {
 			continue
 		}
 		nfull++
-		r, _ := ast.Unparen(ex.Return.Results[0]).(*ast.Ident)
+		r, _ := muxRetExpr(f, vf, ex).(*ast.Ident)
 		if fullErr == nil || r == nil || f.Info.Uses[r] != f.Info.Defs[fullErr] && f.Info.Uses[r] != f.Info.Uses[fullErr] {
 			bad, why = ex.State, "after io.ReadFull the function does not return the read error (a body shorter than its declared length would be a truncated success)"
 			continue
@@ -454,36 +850,55 @@ func c07Fetch(c *core.Ctx, recv string) {
 		return
 	}
 	// facts
+	// "fewer bytes than the limit were read": len(payload) < limit, the length possibly in a local
+	lenRenders := map[string]bool{"len(" + f.Render(payloadVar) + ")": true}
+	ast.Inspect(f.Body, func(n ast.Node) bool {
+		if id, ok := n.(*ast.Ident); ok {
+			if _, isVar := vf.obj(id).(*types.Var); isVar {
+				if x := vf.lenOf(id); x != nil && muxIdentOf(x) != nil && vf.obj(muxIdentOf(x)) == vf.obj(payloadVar) {
+					lenRenders[f.Render(id)] = true
+				}
+			}
+		}
+		return true
+	})
 	var shortKey string
 	for _, st := range res.At[probe] {
 		for _, fact := range st.Facts() {
-			if strings.HasPrefix(fact, "lt:len("+f.Render(payloadVar)+")<") {
+			if !strings.HasPrefix(fact, "lt:") {
+				continue
+			}
+			if i := strings.Index(fact, "<"); i > 0 && lenRenders[fact[len("lt:"):i]] {
 				shortKey = fact[:len(fact)-2]
 			}
 		}
 	}
-	nPos := "lt:0<" + f.Render(probeN)
+	nPosKey, nZeroKey := "lt:0<"+f.Render(probeN), "eq:"+f.Render(probeN)+"==0"
 	bad, why = nil, ""
 	nall := 0
 	sawTooLarge := false
 	for _, ex := range res.Exits {
-		if ex.Kind != flow.ExitReturn || !ex.State.Is("ev:readall", flow.True) || ex.Return == nil || len(ex.Return.Results) != 1 {
+		rexp := muxRetExpr(f, vf, ex)
+		if ex.Kind != flow.ExitReturn || !ex.State.Is("ev:readall", flow.True) || rexp == nil {
 			continue
 		}
 		nall++
 		st := ex.State
-		isNilRet := f.Info.Types[ex.Return.Results[0]].IsNil()
+		isNilRet := f.Info.Types[rexp].IsNil()
+		if id := muxIdentOf(rexp); id != nil && !isNilRet && st.Is(f.NilKey(id), flow.True) {
+			isNilRet = true
+		}
 		switch {
 		case shortKey != "" && st.Is(shortKey, flow.True):
 			// fewer bytes than the limit: fine, nil or the read error
 		case st.Is("ev:probed", flow.True):
-			if st.Is(nPos, flow.True) {
+			if st.Is(nPosKey, flow.True) || st.Is(nZeroKey, flow.False) {
 				sawTooLarge = true
 				if !retSentinel(ex) {
 					bad, why = st, "extra bytes beyond the limit do not yield the too-large error"
 				}
-			} else if st.Is(nPos, flow.False) {
-				if r, ok := ast.Unparen(ex.Return.Results[0]).(*ast.Ident); !ok || (f.Info.Uses[r] != f.Info.Defs[probeErr] && f.Info.Uses[r] != f.Info.Uses[probeErr]) {
+			} else if st.Is(nPosKey, flow.False) || st.Is(nZeroKey, flow.True) {
+				if r, ok := rexp.(*ast.Ident); !ok || (f.Info.Uses[r] != f.Info.Defs[probeErr] && f.Info.Uses[r] != f.Info.Uses[probeErr]) {
 					if !isNilRet {
 						bad, why = st, "a body of exactly the limit is not accepted (the probe found no extra byte)"
 					}
@@ -505,32 +920,112 @@ func c07Fetch(c *core.Ctx, recv string) {
 	c.Check(bad == nil && nall > 0, "R-C07-4", cons+"|extra-byte probe", pos(c, probe), sprintf("%d exits after the limited read: short ⇒ ok, full ⇒ probe; extra bytes ⇒ too large", nall), why, witness(bad)...)
 }
 
+// muxResultHolders returns the variables that receive the (first) result of call, directly or
+// through same-package helpers that return it (`return call(..)`, `err = call(..); return err`).
+func muxResultHolders(vf *muxFlow, call *ast.CallExpr) map[types.Object]*ast.Ident {
+	out := map[types.Object]*ast.Ident{}
+	var visit func(call *ast.CallExpr, depth int)
+	returnedBy := func(o types.Object) []*types.Func {
+		var fs []*types.Func
+		for fo, rets := range vf.rets {
+			for _, r := range rets {
+				switch {
+				case len(r.Results) >= 1:
+					if id := muxIdentOf(r.Results[0]); id != nil && vf.obj(id) == o {
+						fs = append(fs, fo)
+					}
+				case len(r.Results) == 0:
+					if ids := vf.results[fo]; len(ids) >= 1 && vf.obj(ids[0]) == o {
+						fs = append(fs, fo)
+					}
+				}
+			}
+		}
+		return fs
+	}
+	seen := map[*ast.CallExpr]bool{}
+	visit = func(call *ast.CallExpr, depth int) {
+		if depth > 4 || seen[call] {
+			return
+		}
+		seen[call] = true
+		for _, g := range vf.fns {
+			ast.Inspect(g.Body, func(n ast.Node) bool {
+				switch x := n.(type) {
+				case *ast.AssignStmt:
+					if len(x.Rhs) == 1 && ast.Unparen(x.Rhs[0]) == ast.Expr(call) {
+						if id := muxIdentOf(x.Lhs[0]); id != nil && id.Name != "_" {
+							o := vf.obj(id)
+							if _, done := out[o]; !done {
+								out[o] = id
+								for _, fo := range returnedBy(o) {
+									for _, site := range vf.sites[fo] {
+										visit(site.Call, depth+1)
+									}
+								}
+							}
+						}
+					}
+				case *ast.ValueSpec:
+					if len(x.Values) == 1 && ast.Unparen(x.Values[0]) == ast.Expr(call) && len(x.Names) >= 1 {
+						out[vf.obj(x.Names[0])] = x.Names[0]
+					}
+				case *ast.ReturnStmt:
+					if len(x.Results) == 1 && ast.Unparen(x.Results[0]) == ast.Expr(call) {
+						for fo, rets := range vf.rets {
+							for _, r := range rets {
+								if r == x {
+									for _, site := range vf.sites[fo] {
+										visit(site.Call, depth+1)
+									}
+								}
+							}
+						}
+					}
+				}
+				return true
+			})
+		}
+	}
+	visit(call, 0)
+	return out
+}
+
+// muxHolderNil reports what st knows about "the held error is nil" (any holder).
+func muxHolderNil(f *flow.Func, st *flow.State, hs map[types.Object]*ast.Ident) flow.Val {
+	for _, id := range hs {
+		if v := st.Get(f.NilKey(id)); v != flow.Unknown {
+			return v
+		}
+	}
+	return flow.Unknown
+}
+
 func c07Resp(c *core.Ctx) {
 	px := "pkg/filters/proxy"
 	if f := fn(c, px, "ServerPool", "buildResponse"); f != nil {
 		cons := fname(px, "ServerPool", "buildResponse")
-		var fetch *ast.CallExpr
+		fns := reach(f, 3)
+		vf := newMuxFlow(fns)
+		fetch, _ := c07RespFetch(f)
 		var outs []*ast.CallExpr
-		for _, call := range calls(f.Body, false) {
-			if calleeIs(f, call, "(*"+hp+".Response).FetchPayload") {
-				fetch = call
-			}
-			if methodName(call) == "SetOutputResponse" {
-				outs = append(outs, call)
+		for _, g := range fns {
+			for _, call := range calls(g.Body, true) {
+				if methodName(call) == "SetOutputResponse" {
+					outs = append(outs, call)
+				}
 			}
 		}
-		var errID *ast.Ident
-		ast.Inspect(f.Body, func(n ast.Node) bool {
-			if as, ok := n.(*ast.AssignStmt); ok && len(as.Rhs) == 1 && as.Rhs[0] == ast.Expr(fetch) && len(as.Lhs) == 1 {
-				errID, _ = as.Lhs[0].(*ast.Ident)
-			}
-			return true
-		})
-		if fetch == nil || errID == nil || len(outs) == 0 {
-			c.Errorf("R-C07-5: anchor: buildResponse lacks resp.FetchPayload / SetOutputResponse")
+		var holders map[types.Object]*ast.Ident
+		if fetch != nil {
+			holders = muxResultHolders(vf, fetch)
+		}
+		if fetch != nil && len(holders) == 0 && len(outs) > 0 {
+			c.Violate("R-C07-5", cons+"|failed fetch ⇒ error, no output response", pos(c, fetch), "the error of resp.FetchPayload is discarded (the proxy reports success for a response it could not read within serverMaxBodySize)")
+		} else if fetch == nil || len(outs) == 0 {
+			c.Errorf("R-C07-5: anchor: buildResponse (helpers included) lacks resp.FetchPayload / SetOutputResponse")
 		} else {
-			errNil := f.NilKey(errID)
-			res := analyze(c, f, flow.Config{NoHavoc: true, OnCall: func(st *flow.State, call *ast.CallExpr, callee types.Object, d bool) {
+			res := muxAnalyzeInl(c, f, flow.Config{NoHavoc: true, OnCall: func(st *flow.State, call *ast.CallExpr, callee types.Object, d bool) {
 				if call == fetch {
 					st.Set("ev:fetched", flow.True)
 				}
@@ -545,14 +1040,14 @@ func c07Resp(c *core.Ctx) {
 				why := ""
 				for _, o := range outs {
 					for _, st := range res.At[o] {
-						if !st.Is("ev:fetched", flow.True) || !st.Is(errNil, flow.True) {
+						if !st.Is("ev:fetched", flow.True) || muxHolderNil(f, st, holders) != flow.True {
 							bad, why = st, "the response is handed to the pipeline (SetOutputResponse) before/without its body having been fetched within serverMaxBodySize"
 						}
 					}
 				}
 				nfail := 0
 				for _, ex := range res.Exits {
-					if ex.Kind != flow.ExitReturn || !ex.State.Is("ev:fetched", flow.True) || !ex.State.Is(errNil, flow.False) {
+					if ex.Kind != flow.ExitReturn || !ex.State.Is("ev:fetched", flow.True) || muxHolderNil(f, ex.State, holders) != flow.False {
 						continue
 					}
 					nfail++
@@ -560,8 +1055,8 @@ func c07Resp(c *core.Ctx) {
 						bad, why = ex.State, "an oversized/unreadable response is delivered although FetchPayload failed"
 					}
 					retErr := false
-					if ex.Return != nil && len(ex.Return.Results) == 1 {
-						if id, ok := ast.Unparen(ex.Return.Results[0]).(*ast.Ident); ok && (f.Info.Uses[id] == f.Info.Uses[errID] || f.Info.Uses[id] == f.Info.Defs[errID]) {
+					if r := muxRetExpr(f, vf, ex); r != nil {
+						if id := muxIdentOf(r); id != nil && holders[vf.obj(id)] != nil {
 							retErr = true
 						}
 					}
@@ -575,42 +1070,50 @@ func c07Resp(c *core.Ctx) {
 	}
 	if f := fn(c, px, "ServerPool", "doHandle"); f != nil {
 		cons := fname(px, "ServerPool", "doHandle")
+		brObj := types.Object(nil)
+		if b := fnOpt(c, px, "ServerPool", "buildResponse"); b != nil {
+			brObj = muxFuncObj(b)
+		}
+		opaque := map[types.Object]bool{}
+		if brObj != nil {
+			opaque[brObj] = true
+		}
+		fns := muxReach(f, 3, opaque)
+		vf := newMuxFlow(fns)
 		var br *ast.CallExpr
-		for _, call := range calls(f.Body, false) {
-			if calleeIs(f, call, "(*"+px+".ServerPool).buildResponse") {
-				br = call
+		for _, g := range fns {
+			for _, call := range calls(g.Body, true) {
+				if fo, ok := g.Callee(call).(*types.Func); ok && brObj != nil && fo.Origin() == brObj {
+					br = call
+				}
 			}
 		}
-		var errID *ast.Ident
-		ast.Inspect(f.Body, func(n ast.Node) bool {
-			if as, ok := n.(*ast.AssignStmt); ok && len(as.Rhs) == 1 && as.Rhs[0] == ast.Expr(br) && len(as.Lhs) == 1 {
-				errID, _ = as.Lhs[0].(*ast.Ident)
-			}
-			return true
-		})
-		if br == nil || errID == nil {
+		var holders map[types.Object]*ast.Ident
+		if br != nil {
+			holders = muxResultHolders(vf, br)
+		}
+		if br == nil || len(holders) == 0 {
 			c.Errorf("R-C07-5: anchor: doHandle does not bind buildResponse's error")
 			return
 		}
-		errNil := f.NilKey(errID)
-		res := analyze(c, f, flow.Config{NoHavoc: true, OnCall: func(st *flow.State, call *ast.CallExpr, callee types.Object, d bool) {
+		res := muxAnalyzeInl(c, f, flow.Config{NoHavoc: true, OnCall: func(st *flow.State, call *ast.CallExpr, callee types.Object, d bool) {
 			if call == br {
 				st.Set("ev:built", flow.True)
 			}
-		}})
+		}}, muxObjList(opaque)...)
 		if res == nil {
 			return
 		}
 		var bad *flow.State
 		n := 0
 		for _, ex := range res.Exits {
-			if ex.Kind != flow.ExitReturn || !ex.State.Is("ev:built", flow.True) || !ex.State.Is(errNil, flow.False) {
+			if ex.Kind != flow.ExitReturn || !ex.State.Is("ev:built", flow.True) || muxHolderNil(f, ex.State, holders) != flow.False {
 				continue
 			}
 			n++
 			ok := false
-			if ex.Return != nil && len(ex.Return.Results) == 1 {
-				if lit, ok2 := ast.Unparen(ex.Return.Results[0]).(*ast.CompositeLit); ok2 && len(lit.Elts) >= 1 {
+			if r := muxRetExpr(f, vf, ex); r != nil {
+				if lit, ok2 := vf.through(r).(*ast.CompositeLit); ok2 && len(lit.Elts) >= 1 {
 					var codeExpr ast.Expr = lit.Elts[0]
 					if kv, isKV := codeExpr.(*ast.KeyValueExpr); isKV {
 						codeExpr = kv.Value
